@@ -106,12 +106,25 @@ def cleanup_tmp():
         pass
 
 
-def prune_cache(max_bytes=2 << 30):
+def prune_cache(max_age_s=3 * 3600):
+    """Drop compile caches of other trees - but only stale ones: checks against other trees (mutant
+    self-tests, background runs) may be using theirs right now."""
     th = tree_hash()
-    if os.path.isdir(CACHE):
-        for d in os.listdir(CACHE):
-            if d != th:
-                shutil.rmtree(os.path.join(CACHE, d), ignore_errors=True)
+    if not os.path.isdir(CACHE):
+        return
+    now = time.time()
+    try:
+        os.makedirs(os.path.join(CACHE, th), exist_ok=True)
+        os.utime(os.path.join(CACHE, th), None)
+    except OSError:
+        pass
+    for d in os.listdir(CACHE):
+        p = os.path.join(CACHE, d)
+        try:
+            if d != th and now - os.path.getmtime(p) > max_age_s:
+                shutil.rmtree(p, ignore_errors=True)
+        except OSError:
+            pass
 
 
 FLAGS_VERSION = 4       # bump when the rustc command line changes (invalidates cached verdicts)
@@ -248,6 +261,7 @@ def rustc(source, mode="bin", crate_name="probe", externs=None, edition="2021", 
                 text = f.read()
             out = final = None
         if ok and final is not None:
+            os.makedirs(os.path.dirname(final), exist_ok=True)
             os.replace(out, final)
             out = final
         res = Compiled(ok, p.stderr[-20000:], out if ok else None, p.returncode)
@@ -256,6 +270,7 @@ def rustc(source, mode="bin", crate_name="probe", externs=None, edition="2021", 
             _OWN_BINS.add(out)
             _OWN_BINS.add(meta)
         if use_cache:
+            os.makedirs(os.path.dirname(meta), exist_ok=True)
             with open(meta + ".tmp%d" % os.getpid(), "w") as f:
                 json.dump({"ok": res.ok, "stderr": res.stderr, "path": res.path, "rc": res.rc, "text": text}, f)
             os.replace(meta + ".tmp%d" % os.getpid(), meta)
